@@ -10,7 +10,7 @@ import subprocess
 import sys
 import time
 
-ROOT = "/verif"
+ROOT = os.environ.get("VERIF_ROOT", "/verif")
 REPO = "/repo"
 BUILD = os.path.join(ROOT, "build")
 COQ = os.path.join(ROOT, "coq")
@@ -371,6 +371,11 @@ def proof_stage(rep, pid, extra_targets=(), needs_translators=None):
     if forb:
         broken.append({"obligation": "forbidden-commands", "detail": "; ".join(forb[:20])})
     discharged = sum(1 for (r, t) in thms if vo_ok(r) and assum.get(t) == "closed")
+    if discharged < len(thms) and not broken:
+        # never let an undischarged theorem go unreported
+        missing = [t for (r, t) in thms if not (vo_ok(r) and assum.get(t) == "closed")]
+        broken.append({"obligation": "assumptions-missing", "detail": "no Print Assumptions result for %s; vo_ok=%s; raw output: %s" %
+                       (missing[:5], {r: vo_ok(r) for r in rel}, raw[-1500:])})
     rep.coverage.update({
         "obligations": max(len(thms), 1),
         "discharged": discharged,
